@@ -93,6 +93,14 @@ pub struct QuerySpec {
     /// SQL of the sub-query, e.g. `SELECT avg(b.amount) AS m FROM orders AS b`.
     #[serde(default)]
     pub cte: Option<String>,
+    /// Shapes the structured form cannot express (aggregation over an aggregation): the SQL text
+    /// itself, and the harness's holders query for it. The DP semantics of such a query differs
+    /// from the original by design (the inner aggregation is computed per privacy unit), so C09
+    /// does not apply to it.
+    #[serde(default)]
+    pub raw_sql: Option<String>,
+    #[serde(default)]
+    pub holders_override: Option<String>,
 }
 
 impl QuerySpec {
@@ -144,6 +152,9 @@ impl QuerySpec {
     }
 
     pub fn sql_variant(&self, population: bool) -> String {
+        if let Some(r) = &self.raw_sql {
+            return r.clone();
+        }
         let body = self.sql_body(population);
         match &self.cte {
             None => body,
@@ -168,6 +179,9 @@ impl QuerySpec {
     /// (key tuple, unit) pairs of the rows the aggregation sees, with the unit read from the
     /// harness's own ownership side table of the first protected table in FROM.
     pub fn holders_sql(&self, base_alias: &str, base_table: &str) -> String {
+        if let Some(h) = &self.holders_override {
+            return h.clone();
+        }
         let mut items: Vec<String> = self.keys.iter().map(|k| format!("{} AS {}", k.expr, k.alias)).collect();
         items.push("__w.unit AS __unit".to_string());
         format!(
